@@ -29,7 +29,7 @@ RULE = (
 )
 ASSUMPTIONS = [
     "random.uniform and random.choices are the only random sources of a trajectory (seam: emu_mps.mps_backend_impl.random)",
-    "threshold quadrature: midpoint rule with K points for the first threshold and K/4 for later ones; bound 8e-3 (K=32) / 4e-3 (K=64) = 2x the largest deviation measured on the unchanged tree (3.6e-3 at K=32); a wrong operator, level or rate moves the averages by > 3e-2",
+    "threshold quadrature: midpoint rule with K points for the first threshold and K/8 for later ones; bound 8e-3 (K=32) / 4e-3 (K=64) = 2x the largest deviation measured on the unchanged tree (3.6e-3 at K=32); a wrong operator, level or rate moves the averages by > 3e-2",
     "Lindblad reference = vectorised Liouvillian expm with Pulser's collapse operators (mc/ref), stands in for QuTiP mesolve",
     "the asymmetric leakage case differs from Pulser's definition through the recorded C24 defect (3x3 operators: x rows/columns not swapped) and is reported as a known finding",
 ]
@@ -88,12 +88,12 @@ def _cases(tier):
             {"name": "relaxation3", "basis": "rydberg", "noise": dict(relaxation_rate=2.0), "shape": "bent3"},
         ]
     for c in out:
-        c.update(K=K, J=J)
+        c.update(K=K, J=2 if (tier == "quick" or c["name"] != "relaxation") else J, K2div=8)
     return out
 
 
 def bounds(tier, seed):
-    return {"cases": [c["name"] for c in _cases(tier)], "K (threshold grid)": 32 if tier == "quick" else 64, "J (max jumps)": 2 if tier == "quick" else 3, "T_ns": 200, "dt": 20}
+    return {"cases": [c["name"] for c in _cases(tier)], "K (threshold grid, first jump)": 32 if tier == "quick" else 64, "K2 (later jumps)": "K/8", "J (max jumps)": "2 (thorough: 3 for the relaxation case)", "T_ns": 200, "dt": 20}
 
 
 def cases(tier, seed):
@@ -124,7 +124,7 @@ def run_case(case):
     nm = _noise_model(case["noise"])
     ev = [0.5, 1.0]
     label = f"{case['name']} K={case['K']} J={case['J']}"
-    K1, K2, J = case["K"], max(case["K"] // 4, 4), case["J"]
+    K1, K2, J = case["K"], max(case["K"] // case.get("K2div", 4), 4), case["J"]
 
     def one(prefix):
         rng = TreeRandom(prefix, K1, K2, J)
